@@ -94,3 +94,14 @@ package sim
 //@     before[a_differing_decision_means_no_consensus] !arg(1) && !res(Eq, 1)
 //@   at return 3
 //@     before[consensus_is_reported_with_the_common_value] arg(1) && arg(0) == consensus
+
+// The oracle's aggregate verifier for an instance is the one the signing backend builds for exactly the public keys of
+// that instance's power table, used as it is (nothing in between that could remember earlier verdicts).
+//@ func (*simEC).BeginInstance
+//@   property C19
+//@   modifies auto
+//@   maypanic
+//@   at Aggregate 1
+//@     before[the_aggregate_is_over_the_keys_of_the_instances_table] recv() == ec.verifier && arg(0) == res(PublicKeys, 1) && argOf(PublicKeys, 1, 0) == pt.Entries
+//@   at return 0
+//@     before[the_instance_checks_decisions_with_exactly_that_aggregate_and_table] arg(0) == instance && instance.aggregateVerifier == res(Aggregate, 1, 0) && res(Aggregate, 1, 1) == nil && instance.PowerTable == pt && instance.BaseChain == baseChain && instance.ec == ec
